@@ -1485,6 +1485,13 @@ def gen_c19(rng, tier):
     cases.append(G.dcase("kf3", "<!", ">", "a\n<!tl to='2010-01-01 00:00:00' unwrap-block>\n\n<!tl to='2000-01-01 00:00:00'>q<!/tl>\n\n<!/tl>\nc",
                          G.Cfg("tl", "rm", "+00:00", 1293840000, ())))
     meta["kf3"] = {"stream": "history", "chain": [(978307200, []), (1293840000, [])], "ds": "<!", "de": ">", "known_class": KF3}
+    # known finding KF4: joining the texts around a removed inline element creates a start delimiter, which
+    # in the next run swallows the opening tag of a pending element
+    KF4 = "KF4 delimiter created by joining: the texts around a removed inline element form a start delimiter that swallows the next tag in a later run"
+    for j, (pre, post) in enumerate([("x /*", " <b"), ("y /", "* <c"), ("/*", " <")]):
+        src = pre + '/* <tl to="2000-01-01 00:00:00"> */gone/* </tl> */' + post + '\n/* <tl to="2100-01-01 00:00:00"> */keep/* </tl> */\nend\n'
+        cases.append(G.dcase(f"kf4_{j}", "/* <", "> */", src, G.Cfg("tl", "rm", "+00:00", 4449513600, ())))
+        meta[f"kf4_{j}"] = {"stream": "history", "chain": [(1293840000, []), (4449513600, [])], "ds": "/* <", "de": "> */", "known_class": KF4}
     for i in range(150 if tier == "quick" else 2000):
         ds, de = rng.choice(G.DELIMS)
         cfg = G.Cfg("tl", "rm", "+00:00", G.NOW, ("x",))
